@@ -16,7 +16,12 @@ def register(PROPS):
                  '(pull until INSVERB_UNK after every push; at end of input either pull + last_pull or the zero-length push + pull + last_pull), '
                  'the dump of every pulled instruction (verb, oid, every task field, first 5 occurrences with duration and states, cancel range) '
                  'is the same as for the uncut run, the same for both end-of-input disciplines and the same for two different stale buffer '
-                 'fills; no run crashes, trips ASan/bounds, loops or yields instructions without end.',
+                 'fills; no run crashes, trips ASan/bounds, loops or yields instructions without end.  Family datelists: one VEVENT whose '
+                 'recurrence and exception dates arrive in 2 or 3 RDATE and/or EXDATE lines of DATE values with every combination of line sizes '
+                 'from {1, 40, 63, 64, 65, 100, 113} dates (kinds: RDATE lines only; one RDATE line of 113 plus EXDATE lines; RDATE and EXDATE '
+                 'lines alternating; each further line repeats the last date of the one before), fed whole, byte-wise, in every regular chunk size '
+                 'and with one cut within 8 bytes of every line end; here the dump holds EVERY occurrence (count and digest behind the fifth) and '
+                 'the uncut run must yield one task with as many occurrences as distinct dates are listed and not excepted.',
         'note': 'Arbitrary byte strings are not enumerable: robustness is claimed for the sample files, the crafted documents and the two token '
                 'languages and their cuts only (DESIGN C10 L).  Partitions with three or more cuts are covered only as regular chunk sizes.  '
                 'In the asan variant a document whose first failing partition aborts the worker is not continued behind that partition.',
@@ -30,7 +35,9 @@ def register(PROPS):
                      'alphabet: BEGIN/END of VCALENDAR, VEVENT, VALARM in any nesting, METHOD PUBLISH/CANCEL/REPLY/REQUEST, UID+CRLF, REQUEST-STATUS, '
                      'DTSTART, blank line, NUL byte, garbage); partitions: 0 cuts, every single cut, all-ones, every regular size; every pair of cuts '
                      'for samples, crafted, <= 2 content tokens, <= 3 structure tokens; each x 2 end-of-input disciplines x 2 stale fills; '
-                     'ASan+bounds: samples, crafted, <= 2 content tokens, <= 3 structure tokens without pairs',
+                     'ASan+bounds: samples, crafted, <= 2 content tokens, <= 3 structure tokens without pairs; datelists: 3 kinds x (7^2 + 7^3) '
+                     'size combinations = 1176 documents of up to 6.3 KB, partitions c0, near-line-end single cuts, all-ones, regular sizes, '
+                     'plain and ASan+bounds',
             'thorough': 'quick + strings of 4 content tokens (documents over 400 bytes: single cuts within 8 bytes of a line end, fold or the 1 KiB limit), <= 3 inside '
                         'METHOD:CANCEL, structure tokens <= 5, each with 0/1 cuts, all-ones and regular sizes; every '
                         'pair of cuts for <= 3 content tokens and <= 4 structure tokens; ASan+bounds: samples and crafted with pairs, <= 3 content '
@@ -51,6 +58,8 @@ def register(PROPS):
             D('c10_chunks', ['docs=crafted', _ALL], ['docs=crafted', _ALL + ',c2'], label='crafted-asan', variant='asan'),
             D('c10_chunks', ['docs=tokC', 'N=2', _ALL], ['docs=tokC', 'N=3', _ALL], label='content-tokens-asan', variant='asan'),
             D('c10_chunks', ['docs=tokR', 'N=3', _ALL], ['docs=tokR', 'N=4', _ALL], label='structure-tokens-asan', variant='asan'),
+            D('c10_chunks', ['docs=datelists', 'c1max=0', _ALL], label='datelists'),
+            D('c10_chunks', ['docs=datelists', 'c1max=0', _ALL], label='datelists-asan', variant='asan'),
         ],
         'assumptions': [
             'the caller follows the discipline every caller in /repo/src follows: one buffer reused for every chunk, after each push pull until '
@@ -61,5 +70,8 @@ def register(PROPS):
             'the subject of C05, not of this check',
             'a consumer frees every task it is handed (free_echs_task), as echse merge, echsx and echsq do',
             'stale bytes are modelled as what earlier chunks of the same stream left plus one of two fill bytes (blank and Z) behind them',
+            'datelists: lines of up to 111 dates are written RDATE;VALUE=DATE:..., lines of 113 dates as RDATE:yyyymmdd,... (1022 bytes; with the '
+            'parameter they would exceed the 1 KiB line limit), which the parser reads as dates as well; DTSTART is the first listed date, so '
+            'whether DTSTART itself belongs to the set does not arise; a date listed twice counts once (recurrence SET, as in C02)',
         ],
     }
